@@ -94,9 +94,7 @@ pub mod z {
         };
         let sh = any_shdr();
         let _ = f.section_data(&sh);
-        if let Ok(t) = f.section_data_as_strtab(&sh) {
-            let _ = t.get_raw(kani::any());
-        }
+        let _ = f.section_data_as_strtab(&sh); // get_raw / get on a string table: see views_no_alloc
         if let Ok(mut it) = f.section_data_as_rels(&sh) {
             let _ = it.next();
         }
@@ -156,6 +154,31 @@ pub mod z {
         let _ = st.get(kani::any());
         let mut ni = NoteIterator::new(e, Class::ELF64, kani::any(), data);
         let _ = ni.next();
+    }
+}
+
+#[cfg(kani)]
+pub mod zn {
+    //! by-name lookup on a file whose section names include non-UTF-8 bytes, duplicates and prefixes (symbolic query)
+    use super::z::*;
+    use elf::endian::AnyEndian;
+    use elf::ElfBytes;
+    include!("../../core/src/gen_files.rs");
+
+    #[kani::proof]
+    #[kani::stub(std::alloc::alloc, no_alloc)]
+    #[kani::stub(std::alloc::alloc_zeroed, no_alloc)]
+    #[kani::stub(std::alloc::realloc, no_realloc)]
+    #[kani::unwind(28)]
+    pub fn by_name_no_alloc() {
+        let file: &'static [u8] = &NAMES_A_FILE;
+        let f = ElfBytes::<AnyEndian>::minimal_parse(file).unwrap();
+        let q: [u8; 2] = kani::any();
+        let n: usize = kani::any();
+        kani::assume(n <= 2 && q[0] < 0x80 && q[1] < 0x80);
+        let query = unsafe { core::str::from_utf8_unchecked(&q[..n]) };
+        let r = f.section_header_by_name(query);
+        kani::cover!(matches!(r, Ok(None)), "name not present: every section name (incl. the non-UTF-8 one) was visited");
     }
 }
 
